@@ -36,7 +36,13 @@ RULE = ("life-cycle programs on one PPTable: constructor (fmt / limits= / skip_c
         "Non-trivial session = a check of a table with a ranged column after a table was made with fmt_obj=.  "
         "AFTER-PRINT programs: tables with break-by columns and small limits over grouped records are rendered, then a "
         "(break-by) column is removed / the limits are changed through t.fmt.set_limits, then checked, rendered, "
-        "checked (the former finding stale-width-after-remove-columns, repaired by 38581d5).")
+        "checked (the former finding stale-width-after-remove-columns, repaired by 38581d5).  NEAR-NAMES programs and "
+        "sessions: field sets whose names nearly collide (equal up to letter case / case folding / Unicode NFC-NFD-NFKC / "
+        "inner blanks and zero-width characters, one a prefix or suffix of another, number-like, words of the fmt "
+        "vocabulary and modifier names, 'count(*)'-like), every field with values of its own length; fmt strings that "
+        "name the fields in another order than the fields list; near-miss spellings that are NO field given to the "
+        "setter, to fmt= / PPTableFormat.make (must be refused) and to remove_columns / skip_columns (must be ignored); "
+        "a quarter of the ordinary programs and sessions draw their field names from such a cluster too.")
 TRUSTED_BASE = [
     "gen/C13_Consts.v: the literal pieces of to_fmt_str, _parse_col_fmt, _parse_cols_fmt, both _get_fmt_str, "
     "_fmt_str_split, _parse_vis_lines_fmt, the keys of PPEnumFieldType._FMT_MODIFIERS and FieldType's default width "
@@ -258,6 +264,103 @@ STR_VALUES = ["", "a", "bb", "Linus", "Arnold", "x y", "+--+", "|", "été", "lo
 SPACES = [" ", "  ", "\t", " ", "　"]
 
 
+# ---- near-collision field names (round 4, seeded change C13-m8: the setter resolved names through a
+# case-folded key).  Every name of a cluster is a DIFFERENT field: names are compared exactly, code point by
+# code point (coq/C13/Model.v get_field / str_eqb), so a lookup through any coarser key - lower / casefold /
+# Unicode normalisation / blanks squeezed or dropped / a prefix or a numeric value - binds a column to the
+# wrong field or accepts a name that is no field.
+NEAR_CLUSTERS = [
+    ["n", "N"], ["id", "ID", "Id", "iD"], ["name", "Name", "NAME"], ["lv", "LV", "Lv"],
+    ["\xe9", "\xc9", "e\u0301", "E\u0301", "e"],                 # case, NFC / NFD
+    ["\xdf", "ss", "SS", "\u1e9e", "sS"],                          # casefold / upper of sharp s
+    ["s", "\u017f", "S"], ["k", "K", "\u212a"],                      # long s, Kelvin sign
+    ["i", "I", "\u0130", "\u0131", "i\u0307"],                       # dotted / dotless i
+    ["\u03c9", "\u03a9", "\u2126"], ["\u03c3", "\u03c2", "\u03a3"],  # omega / Ohm sign; sigma / final sigma
+    ["\xe5", "\xc5", "\u212b", "a\u030a"],                       # A ring / Angstrom sign / NFD
+    ["fi", "\ufb01", "FI", "Fi"], ["a", "\uff41", "A", "\uff21"],    # ligature, full-width (NFKC)
+    ["\u01c6", "\u01c5", "\u01c4"],                                  # lower / title / upper case digraph
+    ["a b", "a  b", "a\xa0b", "ab", "a\tb", "a\u3000b", "a\u200bb", "A B", "a\nb"],
+    ["a", "a\u200b", "\ufeffa", "a\xad", "\u200ba"],               # zero width space / BOM / soft hyphen: not stripped
+    ["a", "ab", "abc", "b", "bc"], ["name", "nam", "name2", "ame", "name name", "names"],
+    ["x", "x(1)", "x(", "x(1", "(1)", "x()"], ["id", "id_", "_id", "id id", "i", "d"],
+    ["1", "01", "10", "1_0", "+1", "1.0", "0", "00", "1e1"], ["-1", "1", "1-2", "2", "1-", "-", "--1"],
+    ["3-10(7)", "3-10", "3", "(7)", "10(7)", "3-10(7"],
+    ["min", "max", "val", "name", "full", "width"], ["val", "Val", "VAL", "value", "va"],
+    ["full", "Full", "ful", "fullx"], ["*", "**", "* *", "*a"], ["None", "none", "True", "", "null", "NONE"],
+    ["fmt", "fields", "limits", "break", "skip"], ["count(*)", "count", "COUNT(*)", "count(", "count(*"],
+]
+
+
+def _name_variant_groups(n):
+    """spellings a coarse lookup key would identify with n, by kind of key: letter case / Unicode
+    normalisation / blanks and invisible characters / prefix, suffix, numeric value"""
+    import unicodedata as ud
+    groups = [[n.swapcase(), n.upper(), n.lower(), n.casefold(), n.title(), n.capitalize()],
+              [ud.normalize("NFD", n), ud.normalize("NFC", n), ud.normalize("NFKC", n), ud.normalize("NFKD", n),
+               ud.normalize("NFKC", n).casefold()],
+              ["".join(n.split()), " ".join(n.split()), n.replace(" ", "  "), n.replace(" ", "\xa0"), n + "\u200b",
+               "\ufeff" + n],
+              [n[:-1], n[1:], n + n[-1:], n + "x", n + "(1)", n.lstrip("0+") if n[:1] in "0+" else "0" + n]]
+    seen = {n}
+    out = []
+    for g in groups:
+        h = []
+        for v in g:
+            if v not in seen and v == v.strip():
+                seen.add(v)
+                h.append(v)
+        out.append(h)
+    return out
+
+
+def _name_variants(n):
+    return [v for g in _name_variant_groups(n) for v in g]
+
+
+def fixed_misses(names, k):
+    """k spellings that are NOT in names, one per kind of coarse key where the names have such a variant"""
+    out = []
+    for gi in range(4):
+        for j in range(len(names)):
+            n = names[(j + gi) % len(names)]
+            vs = [v for v in _name_variant_groups(n)[gi] if v not in names and v not in out]
+            if vs:
+                out.append(vs[0])
+                break
+    for n in names:
+        for v in _name_variants(n):
+            if len(out) < k and v not in names and v not in out:
+                out.append(v)
+    return (out + [names[0] + "xx"] * k)[:k]
+
+
+def near_names(rng, nf):
+    """nf distinct field names, at least two of them from one cluster of near-collisions"""
+    cl = rng.choice(NEAR_CLUSTERS)
+    k = min(len(cl), nf, rng.choice([2, 2, 3, 4]))
+    names = rng.sample(cl, k)
+    if k < nf and rng.random() < 0.3:
+        names += [v for v in rng.sample(_name_variants(names[0]) or ["q"], 1) if v not in names]
+    guard = 0
+    while len(names) < nf and guard < 50:
+        guard += 1
+        n = rng.choice(rng.choice(NEAR_CLUSTERS) if rng.random() < 0.5 else GOOD_NAMES)
+        if n not in names:
+            names.append(n)
+    rng.shuffle(names)
+    return names
+
+
+def near_miss(rng, n, names):
+    """a spelling close to the field name n; mostly one that is NOT a field (the reference must then be
+    refused by fmt= / the setter and ignored by remove_columns / skip_columns)"""
+    vs = _name_variants(n)
+    if not vs:
+        return n + "x"
+    other = [v for v in vs if v not in names]
+    return rng.choice(other if other and rng.random() < 0.8 else vs)
+
+
 def name_in_charset(n):
     return (not any(c in n for c in ",:;!/")) and "<-" not in n and n == n.strip()
 
@@ -287,8 +390,8 @@ def gen_width(rng, malformed):
     return rng.choice(["+3", "1_0", "007", "3-3", "+2-+5", "00", "1_000"])
 
 
-def gen_fmt(rng, fields, mods, malformed=False, allow_neg=False):
-    """-> (fmt string, uses negative limits)"""
+def gen_fmt(rng, fields, mods, malformed=False, allow_neg=False, miss=0.0):
+    """-> (fmt string, uses negative limits); miss = probability (per column) of a near-miss spelling of the name"""
     neg = False
     r = rng.random()
     # columns part
@@ -304,10 +407,12 @@ def gen_fmt(rng, fields, mods, malformed=False, allow_neg=False):
             s = _sp(rng) + f["n"]
             if malformed and rng.random() < 0.15:
                 s = rng.choice(["nope", "", "ID", f["n"] + "x"])
+            elif rng.random() < (0.12 if malformed else miss):
+                s = _sp(rng) + near_miss(rng, f["n"], [g["n"] for g in fields])
             if f["t"] == "e" and rng.random() < 0.6:
                 s += "/" + rng.choice(mods)
             elif rng.random() < (0.25 if malformed else 0.02):
-                s += "/" + rng.choice(["full", "x", "", " val", "name "])
+                s += "/" + rng.choice(["full", "x", "", " val", "name ", "VAL", "Full", "nam", "val\u200b"])
             if rng.random() < 0.25:
                 s += "!"
                 if malformed and rng.random() < 0.2:
@@ -358,6 +463,14 @@ def gen_fields(rng, ft_min, ft_max, flavour):
     if flavour == "badnames":
         pool = GOOD_NAMES[:6] + BAD_NAMES
     names = rng.sample(pool, nf)
+    if flavour == "badnames" and rng.random() < 0.3:
+        # outside the stated character set (model only): a name and the same name with a blank around it
+        x = rng.choice(["a", "id", "n\xe9", "a b"])
+        names[:2] = rng.sample([x, x + " ", " " + x, x + "\t", "\xa0" + x], 2)
+        names = list(dict.fromkeys(names))
+        nf = len(names)
+    elif flavour != "badnames" and nf >= 2 and rng.random() < 0.25:
+        names = near_names(rng, nf)
     if flavour == "malformed" and rng.random() < 0.05:
         names[-1] = names[0]  # duplicated field name: RecordStructure raises ValueError
     fields = []
@@ -486,7 +599,7 @@ def gen_session(rng, mods, ft_min, ft_max, flavour):
     def a_fmt(p_none=0.2):
         if rng.random() < p_none:
             return None
-        return gen_fmt(rng, fields, mods, malformed and rng.random() < 0.3)[0]
+        return gen_fmt(rng, fields, mods, malformed and rng.random() < 0.3, miss=0.03)[0]
 
     def a_lim():
         return rng.choice(LIMS) if rng.random() < 0.2 else None
@@ -589,6 +702,28 @@ def fixed_sessions(ft_min, ft_max):
     ]
 
 
+def fixed_nearnames_sessions(mods, ft_min, ft_max):
+    """one deterministic session per cluster: near-miss spellings given to PPTableFormat.make and to the
+    PPTable constructor (fmt=; must be refused: nothing is made), tables of the exactly spelled fmt made from
+    the string, from the shared object and from a printed sibling's format object, removed / skipped columns"""
+    out = []
+    for ci, cl in enumerate(NEAR_CLUSTERS):
+        names = list(cl[:4])
+        fields = [{"n": n, "t": "d", "min": ft_min, "max": ft_max} for n in names]
+        short = [["ab"[i] * (j + 1) for j in range(len(names))] for i in range(2)]
+        long_ = [["pqr"[i] * (3 * j + 4 + i) for j in range(len(names))] for i in range(3)]
+        misses = fixed_misses(names, 3)
+        good = ",".join(n + (":1-30", "!", ":2-40", "")[j % 4] for j, n in enumerate(reversed(names)))
+        P, C = ["print"], ["check"]
+        ops = [["new", 0, misses[0] + "," + names[0], None, None], ["new", 1, good, None, [misses[1]]],
+               ["newobj", 0, ["shared", 1], None, [names[-1], misses[2]]], ["newobj", 1, ["shared", 0], None, None],
+               ["op", 1, C], ["op", 1, P], ["newobj", 0, ["table", 1], None, None], ["op", 4, C], ["op", 2, C],
+               ["new", 0, names[0] + ":1-5," + misses[1] + ":-1", None, None], ["op", 4, ["remove", [misses[0], names[1]]]],
+               ["op", 4, P], ["op", 4, C], ["op", 1, ["self"]], ["op", 1, C], ["op", 2, P], ["op", 2, C]]
+        out.append(_sess(fields, [short, long_], [names[-1] + "," + misses[2] + ":3", good], ops, "session-near-names"))
+    return out
+
+
 def gen_after_print(rng, ft_min, ft_max):
     """remove_columns / set_limits on an ALREADY RENDERED table whose visible records depend on break-by
     lines and limits (the former finding stale-width-after-remove-columns): the state detected at the
@@ -630,6 +765,114 @@ def gen_after_print(rng, ft_min, ft_max):
         if rng.random() < 0.2:
             ops.append(["self"])
     return {"fields": fields, "recs": recs, "fmt": fmt, "lim": None, "skip": None, "ops": ops, "flavour": "after-print"}
+
+
+def gen_nearnames(rng, mods, ft_min, ft_max):
+    """fields whose names nearly collide (equal up to case / Unicode normalisation / blanks, prefixes of each
+    other, number-like, words of the fmt vocabulary and modifier names).  Every field gets values of its own
+    typical length so that a column bound to the wrong field shows in the widths, and the fmt strings name
+    the fields of the cluster in an order different from the fields list (a last-one-wins or first-one-wins
+    lookup then picks another field).  References by a near-miss spelling that is NOT a field must be refused
+    (fmt) / ignored (remove_columns, skip_columns)."""
+    nf = rng.choice([2, 2, 3, 3, 4, 5])
+    names = near_names(rng, nf)
+    fields = []
+    for n in names:
+        t = "e" if (n.lower() in mods and rng.random() < 0.6) or rng.random() < 0.08 else rng.choice(["d", "d", "d", "c"])
+        f = {"n": n, "t": t, "min": ft_min, "max": ft_max}
+        if t == "c":
+            f["min"], f["max"] = rng.choice([(2, 4), (0, 3), (1, 8), (4, 40)])
+        fields.append(f)
+    nrec = rng.choice([1, 2, 3, 4, 6, 9])
+    lens = rng.sample([1, 2, 3, 5, 8, 11, 14, 17], nf)       # typical value length of each field
+    recs = []
+    for i in range(nrec):
+        row = []
+        for f, ln in zip(fields, lens):
+            if f["t"] == "e":
+                row.append(rng.choice(ENUM_VALUES))
+            elif rng.random() < 0.5:
+                row.append("vwxyz"[i % 5] * max(1, ln - i % 2))
+            else:
+                row.append(10 ** (ln - 1) + i)
+        recs.append(row)
+
+    def a_col(n, p_miss=0.0):
+        f = fields[names.index(n)]
+        c = _sp(rng, 0.08) + (near_miss(rng, n, names) if rng.random() < p_miss else n)
+        if f["t"] == "e" and rng.random() < 0.6:
+            m = rng.choice(mods)
+            c += "/" + (near_miss(rng, m, mods) if rng.random() < p_miss / 2 else m)
+        if rng.random() < 0.2:
+            c += "!"
+        r = rng.random()
+        if r < 0.35:
+            c += ":" + rng.choice(["1-10", "0-4", "2-30", "1-999", "3-5", "0-20"])
+        elif r < 0.5:
+            c += ":" + rng.choice(["2", "5", "12"])
+        return c
+
+    def a_fmt(p_miss=0.0):
+        k = rng.choice([1, 2, 2, 3, nf, nf + 1])
+        cols = [a_col(rng.choice(names), p_miss) for _ in range(k)]
+        lim = rng.choice(["", "", "", ";*", ";1:1", ";2:3", ";0:2"])
+        return ",".join(cols) + lim
+
+    r = rng.random()
+    fmt = None if r < 0.15 else "*" if r < 0.2 else a_fmt()
+    skip = None
+    if rng.random() < 0.15:
+        skip = [rng.choice(names) if rng.random() < 0.5 else near_miss(rng, rng.choice(names), names)]
+    ops = []
+    for _ in range(rng.choice([3, 4, 5, 6, 7])):
+        r = rng.random()
+        if r < 0.22:
+            ops.append(["print"])
+        elif r < 0.40:
+            ops.append(["self"])
+        elif r < 0.58:
+            ops.append(["set", a_fmt(0.0 if rng.random() < 0.6 else 0.5)])
+        elif r < 0.68:
+            n = rng.choice(names)
+            ops.append(["remove", [n if rng.random() < 0.4 else near_miss(rng, n, names)]])
+        elif r < 0.74:
+            ops.append(["rebuild"])
+        elif r < 0.78:
+            ops.append(["set", rng.choice(["", "*", ";", "*;*"])])
+        else:
+            ops.append(["check"])
+    ops.append(["check"])
+    if rng.random() < 0.5:
+        ops += [["self"], ["check"]]
+    return {"fields": fields, "recs": recs, "fmt": fmt, "lim": None, "skip": skip, "ops": ops, "flavour": "near-names"}
+
+
+def fixed_nearnames(mods, ft_min, ft_max):
+    """one deterministic program per cluster of NEAR_CLUSTERS (whatever VERIF_SEED is): the fields of the
+    cluster with values of a different length each; the fmt string names them in reverse order with ranged
+    widths; check fresh / printed / re-formatted / rebuilt; near-miss spellings that are no fields are given
+    to the setter (must be refused) and to remove_columns (must be ignored); one field is removed"""
+    out = []
+    for ci, cl in enumerate(NEAR_CLUSTERS):
+        names = list(cl[:5])
+        fields = [{"n": n, "t": "e" if (n in mods and ci % 2) else "d", "min": ft_min, "max": ft_max} for n in names]
+        recs = []
+        for i in range(3):
+            recs.append([(10, 300, 20)[i] if f["t"] == "e" else "vwx"[i] * (2 * j + 3 + i) for j, f in enumerate(fields)])
+        cols = []
+        for j, n in enumerate(reversed(names)):
+            f = fields[len(names) - 1 - j]
+            c = n + ("/" + mods[j % len(mods)] if f["t"] == "e" else "") + ("!" if j == 1 else "")
+            cols.append(c + (":1-30", "", ":2-40", ":0-999")[j % 4])
+        misses = fixed_misses(names, 4)
+        ops = [["check"], ["print"], ["check"], ["self"], ["check"], ["print"]]
+        for v in misses:
+            ops.append(["set", v + ":1-9," + names[0]])
+        ops += [["remove", misses[:2]], ["check"], ["remove", [names[0]]], ["check"], ["rebuild"], ["print"], ["check"],
+                ["set", ",".join(names)], ["print"], ["check"]]
+        out.append({"fields": fields, "recs": recs, "fmt": ",".join(cols), "lim": None, "skip": misses[2:3] or None,
+                    "ops": ops, "flavour": "near-names"})
+    return out
 
 
 def _c(fields, recs, fmt, ops, lim=None, skip=None, flavour="valid"):
@@ -689,7 +932,11 @@ def gen_cases(rng, tier):
         cases.append(gen_program(rng, mods, ft_min, ft_max, flavour))
     for i in range(600 if big else 40):
         cases.append(gen_after_print(rng, ft_min, ft_max))
+    cases.extend(fixed_nearnames(mods, ft_min, ft_max))
+    for i in range(900 if big else 70):
+        cases.append(gen_nearnames(rng, mods, ft_min, ft_max))
     cases.extend(fixed_sessions(ft_min, ft_max))
+    cases.extend(fixed_nearnames_sessions(mods, ft_min, ft_max))
     for i in range(2400 if big else N_SESSIONS_QUICK):
         cases.append(gen_session(rng, mods, ft_min, ft_max, "session-malformed" if i % 8 == 7 else "session"))
     return cases
@@ -702,7 +949,11 @@ def search_cases(rng, tier):
         out.append(gen_program(rng, mods, ft_min, ft_max, "valid"))
     for _ in range(500):
         out.append(gen_after_print(rng, ft_min, ft_max))
+    out.extend(fixed_nearnames(mods, ft_min, ft_max))
+    for _ in range(800):
+        out.append(gen_nearnames(rng, mods, ft_min, ft_max))
     out.extend(fixed_sessions(ft_min, ft_max))
+    out.extend(fixed_nearnames_sessions(mods, ft_min, ft_max))
     for _ in range(1500):
         out.append(gen_session(rng, mods, ft_min, ft_max, "session"))
     return out
@@ -1344,7 +1595,13 @@ LEVEL_TEXT = ("Full at the level of the format state, for the stated domain: col
               "unrestricted members of the histories (R_remove, R_limits without side conditions): since the repair "
               "38581d5 they forget the negotiated widths and any_lines_skipped (remove_columns_resets, "
               "remove_and_limits_keep_coherent; remove_break_column_repaired is the witness of the former finding "
-              "stale-width-after-remove-columns, now with equal views).  Outside the claim: value "
+              "stale-width-after-remove-columns, now with equal views).  Field names are resolved EXACTLY: field_lookup_exact "
+              "(a name denotes the field with literally that name, a spelling that is no field name denotes nothing, pairwise "
+              "different names - however similar: letter case, Unicode normalisation, blanks, prefixes, numeric value - each "
+              "resolve to their own field), columns_named_as_written (setter and constructor), roundtrip_keeps_fields, "
+              "witness_near_names; that the implementation resolves names the same way in the setter, the constructor, "
+              "PPTableFormat.make, remove_columns and skip_columns is TESTED on field sets with near-colliding names (one "
+              "deterministic program and one session per cluster of NEAR_CLUSTERS + random ones).  Outside the claim: value "
               "paths / enhanced fmt (DESIGN section 7), tables without columns, negative limits.  The literal pieces of serializer and parser, the enum "
               "modifiers and FieldType's default bounds are re-read from the source on every run (consts_ok).")
 LEVEL_NOTE = ("translated_to_fmt_str_eq / col_roundtrip_translated (coq/C13/PropsTranslated.v, closed): trusted = the translator "
